@@ -29,6 +29,7 @@
 #include "common/protocol/Ola.pb.h"
 #include "common/protocol/OlaService.pb.h"
 #include "olad/plugin_api/Client.h"
+#include "olad/plugin_api/PortManager.h"
 #include "olad/plugin_api/UniverseStore.h"
 #include "vh.h"
 
@@ -107,14 +108,18 @@ class HPort: public ola::BasicInputPort {
 
 class HOut: public ola::BasicOutputPort {
  public:
-  HOut(unsigned int id, unsigned int uni) : ola::BasicOutputPort(NULL, id), ret(true), m_id(id), m_uni(uni) {}
+  HOut(unsigned int id, unsigned int uni)
+      : ola::BasicOutputPort(NULL, id), ret(true), caps(id % 2 == 1), m_id(id), m_uni(uni) {}
   bool ret;  // scripted return value of WriteDMX
+  bool caps;  // odd output ports support priorities (CAPABILITY_FULL), even ones have CAPABILITY_NONE
   string Description() const { return ""; }
   bool WriteDMX(const DmxBuffer &buffer, uint8_t priority) {
     Ev e = {'W', m_id, buffer.Get(), priority, m_uni};
     g_events.push_back(e);
     return ret;
   }
+ protected:
+  bool SupportsPriorities() const { return caps; }
  private:
   unsigned int m_id, m_uni;
 };
@@ -185,6 +190,7 @@ static string handle(const string &payload) {
   FixedSS ss(&wake);
   ola::PluginAdaptor pa(NULL, &ss, NULL, NULL, NULL, NULL, NULL);
   ola::UniverseStore store(NULL, NULL);
+  ola::PortManager port_manager(&store, NULL);   // only its priority entry points are used
   ola::Universe *us[2];
   vector<HPort*> ports[2];
   vector<HOut*> outs[2];
@@ -295,6 +301,14 @@ static string handle(const string &payload) {
       port->SetPriorityMode(f[2] == "1" ? ola::PRIORITY_MODE_INHERIT : ola::PRIORITY_MODE_STATIC);
     } else if (op == "ph") {
       port->inherited = static_cast<uint8_t>(vh::num(f[2]));
+    } else if (op == "ms") {
+      port_manager.SetPriorityStatic(port, static_cast<uint8_t>(vh::num(f[2])));
+    } else if (op == "mi") {
+      port_manager.SetPriorityInherit(port);
+    } else if (op == "os") {
+      port_manager.SetPriorityStatic(outp, static_cast<uint8_t>(vh::num(f[2])));
+    } else if (op == "oi") {
+      port_manager.SetPriorityInherit(outp);
     } else if (op == "pk") {
       port->caps = f[2] == "1";
     } else {
